@@ -132,7 +132,9 @@ func init() {
 		for _, k := range c20Enumerate(3) {
 			vs = append(vs, vCase{false, k.Key}, vCase{true, k.Key})
 			// and the sanitised image must be valid
-			vs = append(vs, vCase{false, []byte(otelstorage.KeyToLabel(string(k.Key)))})
+			if san, ok := safeKeyToLabel(string(k.Key)); ok {
+				vs = append(vs, vCase{false, []byte(san)})
+			}
 		}
 		RunCases(c, valid, vs)
 		RunSpec(c, valid, c.Scale(2000, 20000))
@@ -153,10 +155,11 @@ func init() {
 					for i, n := 0, 1+r.Intn(5); i < n; i++ {
 						key += c20Alphabet[r.Intn(len(c20Alphabet))]
 					}
-					san := otelstorage.KeyToLabel(key)
-					clash := san == ""
+					// (a panicking KeyToLabel is reported by the first correspondence; here the key is skipped)
+					san, ok := safeKeyToLabel(key)
+					clash := san == "" || !ok
 					for _, kv := range ctr.Labels {
-						if otelstorage.KeyToLabel(kv[0]) == san {
+						if s2, ok2 := safeKeyToLabel(kv[0]); !ok2 || s2 == san {
 							clash = true
 						}
 					}
@@ -204,4 +207,15 @@ func init() {
 		}
 		_ = dockerlog.NewQuerier
 	}
+}
+
+// safeKeyToLabel: the generators call the function under test to build cases; a panic there must not
+// take the harness down before the failing inputs found so far are written.
+func safeKeyToLabel(k string) (out string, ok bool) {
+	defer func() {
+		if recover() != nil {
+			out, ok = "", false
+		}
+	}()
+	return otelstorage.KeyToLabel(k), true
 }
